@@ -35,6 +35,38 @@ def apply_edit(root, rel, old, new):
         with open(path, 'w', newline='') as f:
             f.write(ast.unparse(ast.parse(raw)) + '\n')
         return True
+    if isinstance(old, tuple) and old[0] == 'extract_stmt':
+        # ('extract_stmt', lineno, col): the simple statement at that position (it only mentions self and module-level names) is moved into a new
+        # method of the same class and replaced by a call of it
+        import ast
+        tree = ast.parse(raw)
+        done = False
+        for c in ast.walk(tree):
+            if not isinstance(c, ast.ClassDef) or done:
+                continue
+            for m in c.body:
+                if not isinstance(m, (ast.FunctionDef, ast.AsyncFunctionDef)) or done:
+                    continue
+                for parent in ast.walk(m):
+                    for field in ('body', 'orelse', 'finalbody'):
+                        lst = getattr(parent, field, None)
+                        if not isinstance(lst, list) or done:
+                            continue
+                        for i, st in enumerate(lst):
+                            if isinstance(st, ast.stmt) and (st.lineno, st.col_offset) == (old[1], old[2]):
+                                name = f'_extracted_{old[1]}'
+                                helper = ast.FunctionDef(name=name, args=ast.arguments(posonlyargs=[], args=[ast.arg(arg='self')], kwonlyargs=[], kw_defaults=[], defaults=[]),
+                                                         body=[st], decorator_list=[], type_params=[])
+                                lst[i] = ast.Expr(value=ast.Call(func=ast.Attribute(value=ast.Name(id='self', ctx=ast.Load()), attr=name, ctx=ast.Load()), args=[], keywords=[]))
+                                c.body.append(helper)
+                                done = True
+                                break
+        if not done:
+            return False
+        ast.fix_missing_locations(tree)
+        with open(path, 'w', newline='') as f:
+            f.write(ast.unparse(tree) + '\n')
+        return True
     if isinstance(old, tuple) and old[0] == 'move_method':
         # ('move_method', lineno, col): the undecorated method defined at that position becomes the last statement of its class
         import ast
